@@ -32,7 +32,9 @@ def cmd_explore(a):
             seed = a.seed0 + k
             k += a.stride
             n += 1
-            faulthandler.dump_traceback_later(600, exit=True)
+            with open(a.out + ".cur", "w") as cf:
+                cf.write(str(seed))
+            faulthandler.dump_traceback_later(240, exit=True)
             try:
                 if a.enum:
                     from sim import enumerate_faults
